@@ -105,6 +105,8 @@ STATEMENTS = [
     # ... with two-letter prefixes (rb, fr, Rb, bR, fR) and a lone quote of their own kind inside
     (["d = rb'''don't'''"], None), (['e = fr"""say "hi" {1}"""'], None), (["g = Rb'''it's", "still 'open'", "done'''"], None),
     (['h = bR"""a "q"', '', 'b"""'], None), (["print(fR'''x'y{2}''')"], ["x'y2"]),
+    # characters that str.splitlines() breaks at, inside a string literal or a comment, with an unmatched bracket or quotes behind them
+    (["rec = 'id\x1e(none'"], None), (["note = 1  # see \x85 [draft"], None), (["sep = 'a\x0c{' + \"\u2028'''\""], None), (["print(len('x\x1c)'))"], ['3']),
 ]
 
 
